@@ -50,7 +50,33 @@ class RuntimeSub(RuntimeError):
     pass
 
 
-SUB_BLOCKS = {"StopAsyncIterationSub": StopAsyncSub, "StopIterationSub": StopIterSub, "GeneratorExitSub": GenExitSub, "RuntimeErrorSub": RuntimeSub}
+class EqError(Exception):
+    """all instances compare equal (a dataclass-style error): identity, not equality, tells the block's exception apart"""
+
+    def __eq__(self, other):
+        return isinstance(other, EqError)
+
+    def __hash__(self):
+        return 1
+
+
+class EqBaseError(BaseException):
+    def __eq__(self, other):
+        return isinstance(other, EqBaseError)
+
+    def __hash__(self):
+        return 2
+
+
+class EmptyError(Exception):
+    """a falsy exception (an empty collection of errors)"""
+
+    def __len__(self):
+        return 0
+
+
+SUB_BLOCKS = {"StopAsyncIterationSub": StopAsyncSub, "StopIterationSub": StopIterSub, "GeneratorExitSub": GenExitSub, "RuntimeErrorSub": RuntimeSub,
+              "EqError": EqError, "EqBaseError": EqBaseError, "EmptyError": EmptyError}
 BLOCK_EXC.update(SUB_BLOCKS)
 
 
@@ -112,6 +138,7 @@ class Proxy:
 
     def athrow(self, *args):
         self.counts["athrow"] += 1
+        self.counts.setdefault("thrown", []).extend(args)
         return self.gen.athrow(*args)
 
     def aclose(self):
@@ -248,6 +275,8 @@ def run(tier, seed):
                 why = "GeneratorExit leaving the block did not propagate as the same object: %r" % (out_a[:3],)
         elif not same:
             why = "outcome differs from asynccontextmanager: asyncstdlib %r contextlib %r" % (nrm(out_a), nrm(out_s))
+        elif value is not None and cnt_a.get("athrow") and not builtins.any(x is value for x in cnt_a.get("thrown", [])):
+            why = "the generator was thrown %r instead of the very exception object that left the block" % ([type(x).__name__ for x in cnt_a.get("thrown", [])],)
         elif pre == "yield" and (cnt_a["anext"], cnt_a["athrow"]) != (2 if block == "normal" else 1, 0 if block == "normal" else 1) and block != "GeneratorExit":
             why = "generator not resumed/thrown into exactly once: %r" % (cnt_a,)
         if why:
